@@ -172,6 +172,30 @@ ADDENDA3 = {
 }
 for _pid, _txt in ADDENDA3.items():
     ADDENDA[_pid] = ADDENDA.get(_pid, "") + _txt
+# round 4: construct-level rules (DESIGN 3.8) and the new-structure policy (DESIGN 3.7)
+ADDENDA4 = {
+    "C01": " A key that stands for a schema type reads every field that tells two types apart (R01.10); a work-list walk puts every expansion back at the end it takes from (R01.11); a container decoder that reads raw words admits no class whose handler converts, unless it converts that class afterwards (R01.8).",
+    "C02": " Same key rule (R02.9) and work-list rule (R02.10); a smallest-size function used in a rejecting guard - directly, through a local or through a helper's parameter - is a true lower bound (R02.8).",
+    "C04": " Type-identity keys are complete (R04.9); a loop that walks down a nested type accumulates the size of every level it is at (R04.8).",
+    "C05": " What stands for a binding in the DBC is named by the binding's own name, not by the struct it refers to (R05.5).",
+    "C06": " A per-type signal codec that names an integer-type tag names its own (R06.9); groups made by groupby over unsorted input are not stored by key with overwrite (R06.8).",
+    "C07": " A record built positionally from variables named like its own fields gets each in its own position (R07.8); every step of a table of fold steps builds on the accumulated value (R07.9).",
+    "C09": " By-name struct/enum lookups in checks are fed with the name the node refers to (R09.6); identity keys are not glued from identifier texts with '_' (R09.7); a cycle guard forgets what the walk has left (R09.8).",
+    "C10": " Groups of checks are not stored by key from a groupby over the unsorted registry (R10.4); the nodes that checks run over are not read back from a mapping keyed by name (R10.5); a scratch file is not named by replacing the target's extension (R10.6).",
+    "C11": " lark's own tree.meta is read only where located meta-data is made (R11.8); a position taken from an exception that can be UnexpectedEOF is tested against the -1 sentinel (R11.9).",
+    "C12": " Every step of the annotation fold builds on the accumulated annotations (R12.9).",
+    "C14": " Same registry rules as C10 (R14.6, R14.7) and cycle-guard rule (R14.8).",
+    "C15": " A sort applied to struct fields has a key the fields carry (R15.5); no wire-relevant iteration - loop, comprehension, explicit iterator, also through helper parameters - takes a struct's fields in declaration order (R15.6).",
+    "C16": " A size computed by walking down a nested type accumulates over every level (R16.7); running out of input is not turned into a quiet end of iteration: short islice of a generator that can end, StopIteration inside map() (R16.8).",
+    "C18": " A generated table that is bisected is emitted in the order the search compares by (R18.7); Encode/Decode do not write into the wrapper object's own storage through references or iterators (R18.8).",
+    "C19": " A hand-written distance across a counter wrap counts the step from the maximum to 0 (W1).",
+    "C20": " A dotted module name is never used as one path component (R20.6); a copied context record does not keep fields derived from the importer's file (R20.7).",
+}
+_POLICY = " On code that adds functions or classes the pinned tree does not have, shape rules report UNDECIDED instead of a violation (DESIGN 3.7); construct-level rules still decide."
+for _pid, _txt in ADDENDA4.items():
+    ADDENDA[_pid] = ADDENDA.get(_pid, "") + _txt
+for _pid in list(CLAIMS):
+    ADDENDA[_pid] = ADDENDA.get(_pid, "") + _POLICY
 for _pid, _txt in ADDENDA.items():
     _t = CLAIMS[_pid]
     CLAIMS[_pid] = (_t[0], _t[1] + _txt, _t[2], _t[3])
